@@ -124,6 +124,9 @@ def run_call(R, C, md, args, rets, driver, rng, repro):
         hels = []
         try:
             for h in hin_names:
+                if len(hin_names) > 1 and rng.random() < .35:
+                    hin.append(None)          # a client may supply only some of the declared headers
+                    continue
                 v = gen.gen_value(rng, ir, {'ref': h}, top=True)
                 heq = refxml.Q(tds[h]['ns'], h)
                 if heq not in W.schema.elements:
@@ -189,7 +192,7 @@ def run_call(R, C, md, args, rets, driver, rng, repro):
             R.violation('argument %s differs: %s' % (an, '; '.join(d)[:300]), repro, mech='arg_differs:%s' % mech_diff(at, d), config=cfg,
                         tspec=at)
     # request headers as user code reads them
-    if hin:
+    if hin and any(x is not None for x in hin):
         got_h = getattr(B.calls[0][2], 'in_header', None)
         got_hs = list(got_h) if isinstance(got_h, (list, tuple)) else [got_h]
         R.count('in_headers_compared')
@@ -199,6 +202,11 @@ def run_call(R, C, md, args, rets, driver, rng, repro):
         else:
             for h, sent, o in zip(hin_names, hin, got_hs):
                 d = []
+                if sent is None:
+                    if o is not None:
+                        ok = False
+                        R.violation('request header %s was not sent, ctx.in_header has %r for it' % (h, type(o).__name__), repro, mech='in_header_invented', config=cfg)
+                    continue
                 if not gen.veq(ir, {'ref': h}, sent, B.from_spyne({'ref': h}, o), 'in_header.' + h, d):
                     ok = False
                     R.violation('request header %s differs: %s' % (h, '; '.join(d)[:300]), repro, mech='in_header_differs:%s' % mech_diff({'ref': h}, d), config=cfg)
